@@ -1430,6 +1430,29 @@ def r01_14(ctx):
         ctx.ob("R01.14", f"to_json_slice:{ty}", ok, f.loc(), "; ".join(why) or "no JsonSlice is built")
 
 
+def r01_13x(ctx):
+    """the interval obligations on the other targets the crate compiles for (SSE2 baseline, aarch64 NEON, a target without
+    SIMD): thorough tier only"""
+    if ctx.tier != "thorough":
+        ctx.ob("R01.13x", "cross-target", True, "", "cross-target interval run: thorough tier only", nontrivial=False)
+        return
+    if ctx.default_config != "native":
+        ctx.ob("R01.13x", "cross-target", True, "", "run once from the native pass", nontrivial=False)
+        return
+    keep = ctx.default_config
+    for cfg in ("baseline", "aarch64", "nosimd"):
+        n0 = len(ctx.obligations)
+        ctx.default_config = cfg
+        try:
+            r01_13(ctx)
+        finally:
+            ctx.default_config = keep
+        for o in ctx.obligations[n0:]:
+            o["rule"] = "R01.13x"
+            o["key"] = f"{cfg}:{o['key']}"
+    ctx.violations = [o for o in ctx.obligations if not o["ok"]]
+
+
 def r01_8(ctx):
     """no leak on an error path of the bitwise hand-over (shared with C16: R16.2)"""
     from .c16 import r16_2
@@ -1451,4 +1474,4 @@ def r01_s(ctx):
     ctx.include(c16.r16_6, 'R01.S')
 
 
-RULES = [("R01.1", r01_1), ("R01.2", r01_2), ("R01.2b", r01_2b), ("R01.3", r01_3), ("R01.4", r01_4), ("R01.4b", r01_4b), ("R01.5", r01_5), ("R01.6", r01_6), ("R01.7", r01_7), ("R01.8", r01_8), ("R01.9", r01_9), ("R01.10", r01_10), ("R01.11", r01_11), ("R01.12", r01_12), ("R01.13", r01_13), ("R01.14", r01_14), ("R01.15", r01_15), ("R01.16", r01_16), ("R01.W", r01_w), ("R01.S", r01_s)]
+RULES = [("R01.1", r01_1), ("R01.2", r01_2), ("R01.2b", r01_2b), ("R01.3", r01_3), ("R01.4", r01_4), ("R01.4b", r01_4b), ("R01.5", r01_5), ("R01.6", r01_6), ("R01.7", r01_7), ("R01.8", r01_8), ("R01.9", r01_9), ("R01.10", r01_10), ("R01.11", r01_11), ("R01.12", r01_12), ("R01.13", r01_13), ("R01.13x", r01_13x), ("R01.14", r01_14), ("R01.15", r01_15), ("R01.16", r01_16), ("R01.W", r01_w), ("R01.S", r01_s)]
